@@ -274,7 +274,12 @@ Misuse(mm, e) ==
     /\ \/ (e.args.port = 0 /\ Len(e.args.data) > 0)
        \/ 13 + (IF e.args.port = 0 THEN 0 ELSE Len(mm.sess.pending)) + Len(e.args.data) >= 256
 \* a send() that cannot go ahead (misuse, or no usable channel): refused with an error, no radio call, nothing changes
-Refused(mm, m1, isJoin, e) == ~isJoin /\ (Misuse(mm, e) \/ ~CanTx(m1, FALSE))
+\* (While the fixed plans' join bias may still be in force a data uplink goes out at the join data rate on the preferred
+\* sub-band whatever data rate is configured: if the configured one has no usable channel the device transmits as long as
+\* the bias really is in force and refuses once it is not - the one step the snapshot does not show.  Both are accepted:
+\* a transmission is then judged against Mac!TxChoices like any other, a refusal as a refusal.)
+Refused(mm, m1, isJoin, e) ==
+    ~isJoin /\ (Misuse(mm, e) \/ (~CanTx(m1, FALSE) /\ (~m1.jw.was \/ TxChoices(m1, FALSE) = {} \/ e.calls = <<>>)))
 RefusedOk(mm, m1, e, what) ==
     /\ Chk(<<what, IF Misuse(mm, e) THEN "C04 send() misuse is refused with an error" ELSE "C04/C09 no usable channel: send() is refused with an error",
              mm.region, m1.cfg.dr>>, "ErrMac", e.resp.k)
